@@ -83,7 +83,11 @@ impl Rz {
     fn ty(&mut self, t: &Type) {
         match t {
             Type::Typeof(e) => self.expr(e),
-            Type::Name { params, .. } => {
+            Type::Name { ns, ns_pos, params, .. } => {
+                // `Module.Type`: the namespace is a variable reference
+                if let Some(ns) = ns {
+                    self.use_name(ns, *ns_pos);
+                }
                 if let Some(ps) = params {
                     for p in ps {
                         self.ty(p);
